@@ -853,7 +853,7 @@ func u1(w *World, r *Report) {
 		c := w.findCall(eb, "recv.updateValidators(int(p0.GovHandler.MaxValidatorCnt()))")
 		r.Check(c != nil, "U-1", "EndBlock:max-validators", "the truncation uses the governance validator limit", "EndBlock does not select with the governance MaxValidatorCnt()", fnSite(w, eb))
 	}
-	w.checkLess(r, "U-1", "PowerOrderDelegatees", []string{"TotalPower", "Stakes", "Addr"})
+	w.checkLess(r, "U-1", "PowerOrderDelegatees", []string{"#.TotalPower", "len(#.Stakes)", "#.Addr"}, []int{-1, -1, -1})
 }
 
 // sortArgType: the named type of the value handed to sort.Sort.
@@ -872,38 +872,19 @@ func (w *World) sortArgType(c ssa.CallInstruction) string {
 
 // checkLess: the comparator is a lexicographic chain over the listed keys, each
 // decided strictly, ending in a full-width address comparison.
-func (w *World) checkLess(r *Report, rule, typ string, keys []string) {
+func (w *World) checkLess(r *Report, rule, typ string, keys []string, dirs []int) {
 	fn := needFn(r, rule, w, fref{pkgStake, typ, "Less"})
 	if fn == nil {
 		return
 	}
-	// every If condition is an inequality test on one key, in order; the last key is the address
-	var conds []string
-	for _, b := range fn.Blocks {
-		if ifi, ok := lastInstr(b).(*ssa.If); ok {
-			conds = append(conds, w.Canon(ifi.Cond))
+	t := w.comparatorTable(fn)
+	ok, why := t.matchesLexicographic(keys, dirs)
+	if ok {
+		if tot, w2 := t.strictTotalOrder(); !tot {
+			ok, why = false, w2
 		}
 	}
-	var rets []string
-	for _, b := range fn.Blocks {
-		if ret, ok := lastInstr(b).(*ssa.Return); ok {
-			rets = append(rets, w.Canon(ret.Results[0]))
-		}
-	}
-	all := strings.Join(conds, " ; ") + " => " + strings.Join(rets, " ; ")
-	ok := true
-	pos := 0
-	for _, k := range keys {
-		i := strings.Index(all[pos:], "."+k)
-		if i < 0 {
-			ok = false
-			break
-		}
-		pos += i
-	}
-	last := keys[len(keys)-1]
-	ok = ok && strings.Contains(all, "bytes.Compare(recv[p0]."+last+", recv[p1]."+last+")")
-	r.Check(ok, rule, typ+".Less:total-order", "lexicographic order over "+strings.Join(keys, ", ")+" ending in the unique address: no ties are left to the sort algorithm", typ+".Less is no longer a total order ending in the address tie-break: "+all, fnSite(w, fn))
+	r.Check(ok, rule, typ+".Less:total-order", fmt.Sprintf("evaluated on all %d assignments of (<,=,>) to %v: the lexicographic order the selection assumes, ending in the unique address, so no ties are left to the sort algorithm", len(t.Rows), t.Keys), typ+".Less is not the expected total order: "+why, fnSite(w, fn))
 }
 
 func u2(w *World, r *Report) {
@@ -959,85 +940,177 @@ func u2(w *World, r *Report) {
 		return
 	}
 	r.OK("U-2", "merge:compare", "the merge is driven by compare(existing[i].Addr, newers[j].Addr)", site(w, cmp))
-	cc := w.Canon(cmp)
-	lt, eq := "("+cc+" < 0)", "("+cc+" == 0)"
 	hdr := iPhi.Block()
-	// classify back edges
-	type row struct{ emitKey, emitPow string }
-	wantInc := map[string][2]bool{"lt": {true, false}, "eq": {true, true}, "gt": {false, true}}
-	seenBr := map[string]bool{}
-	for k, pred := range hdr.Preds {
-		if !hdr.Dominates(pred) {
-			continue // loop entry
-		}
-		br := ""
-		switch {
-		case w.condCanonHolds(pred, lt, 1) || (lastIfCond(w, pred) == lt && pred.Succs[0] == hdr):
-			br = "lt"
-		case w.condCanonHolds(pred, eq, 1):
-			br = "eq"
-		case w.condCanonHolds(pred, eq, -1) && w.condCanonHolds(pred, lt, -1):
-			br = "gt"
-		default:
-			r.Undecided("U-2", fmt.Sprintf("merge:back-edge#%d", k), "a loop back edge of the merge is not under one of the three orderings", w.InstrPos(lastInstr(pred)))
-			continue
-		}
-		seenBr[br] = true
-		incI := isIncOf(iPhi.Edges[k], iPhi)
-		incJ := isIncOf(jPhi.Edges[k], jPhi)
-		keepI := iPhi.Edges[k] == ssa.Value(iPhi)
-		keepJ := jPhi.Edges[k] == ssa.Value(jPhi)
-		want := wantInc[br]
-		good := (want[0] && incI || !want[0] && keepI) && (want[1] && incJ || !want[1] && keepJ)
-		r.Check(good, "U-2", "merge:advance:"+br, fmt.Sprintf("ordering %s advances i:%v j:%v", br, want[0], want[1]), fmt.Sprintf("ordering %q advances the wrong index (i advanced: %v, j advanced: %v)", br, incI, incJ), w.InstrPos(lastInstr(pred)))
-	}
-	for _, br := range []string{"lt", "eq", "gt"} {
-		if !seenBr[br] {
-			r.Violate("U-2", "merge:advance:"+br, "the merge has no loop branch for ordering "+br, nil, fnSite(w, fn))
-		}
-	}
-	// emissions
 	I, J := w.Canon(iv), w.Canon(jv)
-	rem := "types.UpdateValidator(p0[" + I + "].PubKey, 0, \"secp256k1\")"
-	add := "types.UpdateValidator(p1[" + J + "].PubKey, p1[" + J + "].TotalPower, \"secp256k1\")"
-	var inLoop []ssa.CallInstruction
-	var tails []ssa.CallInstruction
-	for _, c := range w.callsTo(fn, fref{"github.com/tendermint/tendermint/abci/types", "", "UpdateValidator"}) {
-		if hdr.Dominates(c.Block()) && reachesBlock(c.Block(), hdr) {
-			inLoop = append(inLoop, c)
-		} else {
-			tails = append(tails, c)
+	// One iteration of the merge is evaluated abstractly for each ordering of the
+	// two addresses and for equal / different powers: which update is emitted
+	// (helpers expanded) and which index advances. Independent of how the three
+	// cases are written (if chain, switch, helpers).
+	isCmpV := func(v ssa.Value) bool { return stripConv(v) == ssa.Value(cmp) }
+	isZero := func(v ssa.Value) bool { k, ok := constInt(v); return ok && k == 0 }
+	cmpInts := func(a int, op token.Token, b int) (bool, bool) {
+		switch op {
+		case token.LSS:
+			return a < b, true
+		case token.LEQ:
+			return a <= b, true
+		case token.GTR:
+			return a > b, true
+		case token.GEQ:
+			return a >= b, true
+		case token.EQL:
+			return a == b, true
+		case token.NEQ:
+			return a != b, true
+		}
+		return false, false
+	}
+	isLenOfParam := func(v ssa.Value) bool {
+		c, ok := v.(*ssa.Call)
+		if !ok {
+			return false
+		}
+		bi, ok := c.Common().Value.(*ssa.Builtin)
+		if !ok || bi.Name() != "len" {
+			return false
+		}
+		_, isP := c.Common().Args[0].(*ssa.Parameter)
+		return isP
+	}
+	powI, powJ := "p0["+I+"].TotalPower", "p1["+J+"].TotalPower"
+	evalFor := func(sgn int, diff bool) func(ssa.Value) (bool, bool) {
+		return func(c ssa.Value) (bool, bool) {
+			bo, ok := c.(*ssa.BinOp)
+			if !ok {
+				return false, false
+			}
+			switch {
+			case isCmpV(bo.X) && isZero(bo.Y):
+				return cmpInts(sgn, bo.Op, 0)
+			case isZero(bo.X) && isCmpV(bo.Y):
+				return cmpInts(0, bo.Op, sgn)
+			case bo.Op == token.LSS && (bo.X == ssa.Value(iPhi) || bo.X == ssa.Value(jPhi)) && isLenOfParam(bo.Y):
+				return true, true // inside the merge loop
+			case bo.Op == token.GTR && (bo.Y == ssa.Value(iPhi) || bo.Y == ssa.Value(jPhi)) && isLenOfParam(bo.X):
+				return true, true
+			case bo.Op == token.EQL || bo.Op == token.NEQ:
+				x, y := w.Canon(bo.X), w.Canon(bo.Y)
+				if (x == powI && y == powJ) || (x == powJ && y == powI) {
+					return diff == (bo.Op == token.NEQ), true
+				}
+			}
+			return false, false
 		}
 	}
-	emitOK := map[string]bool{}
-	for _, c := range inLoop {
-		s := w.canonCall(c.Common(), 0)
-		switch {
-		case w.condCanonHolds(c.Block(), lt, 1):
-			emitOK["lt"] = s == rem
-		case w.condCanonHolds(c.Block(), eq, 1):
-			pw := w.condCanonHolds(c.Block(), symCmp("p0["+I+"].TotalPower", "!=", "p1["+J+"].TotalPower"), 1)
-			emitOK["eq"] = s == add && pw
-		case w.condCanonHolds(c.Block(), eq, -1) && w.condCanonHolds(c.Block(), lt, -1):
-			emitOK["gt"] = s == add
+	remS := "types.UpdateValidator(p0[" + I + "].PubKey, 0, \"secp256k1\")"
+	addS := "types.UpdateValidator(p1[" + J + "].PubKey, p1[" + J + "].TotalPower, \"secp256k1\")"
+	uvRef := fref{"github.com/tendermint/tendermint/abci/types", "", "UpdateValidator"}
+	emitEvent := func(in ssa.Instruction) string {
+		c, ok := in.(*ssa.Call)
+		if !ok || !w.callIs(c.Common(), uvRef) {
+			return ""
+		}
+		switch s := w.canonCall(c.Common(), 0); s {
+		case remS:
+			return "rem"
+		case addS:
+			return "add"
 		default:
-			emitOK["?"+s] = false
+			return "emit?" + s
 		}
 	}
-	r.Check(emitOK["lt"], "U-2", "merge:emit:lt", "an existing validator missing from the new set is removed (its own key, power 0)", "ordering `existing < newer` does not emit (existing[i].PubKey, 0)", fnSite(w, fn))
-	r.Check(emitOK["eq"], "U-2", "merge:emit:eq", "a validator in both sets is updated iff its total power changed (newer key, newer TotalPower)", "ordering `equal` does not emit (newers[j].PubKey, newers[j].TotalPower) exactly when the powers differ", fnSite(w, fn))
-	r.Check(emitOK["gt"], "U-2", "merge:emit:gt", "a validator only in the new set is added (its key, its TotalPower)", "ordering `existing > newer` does not emit (newers[j].PubKey, newers[j].TotalPower)", fnSite(w, fn))
-	for k, v := range emitOK {
-		if strings.HasPrefix(k, "?") && !v {
-			r.Violate("U-2", "merge:emit:unclassified", "an update is emitted outside the three orderings: "+k[1:], nil, fnSite(w, fn))
-		}
+	type iter struct {
+		ev       string
+		di, dj   string
+		complete bool
 	}
-	// tails: one loop for each list
+	adv := func(ph *ssa.Phi) string {
+		if w.cur == nil {
+			return "?"
+		}
+		v, ok := w.cur.st.phi[ph]
+		switch {
+		case !ok:
+			return "?"
+		case v == ssa.Value(ph):
+			return "keep"
+		case isIncOf(v, ph):
+			return "inc"
+		}
+		return "other:" + w.Canon(v)
+	}
+	oneIteration := func(sgn int, diff bool) ([]iter, bool) {
+		e := &enumerator{w: w, eval: evalFor(sgn, diff), event: emitEvent, max: 200, complete: true, evCache: map[ssa.Instruction]string{}, hasEv: map[*ssa.Function]int{}, pathSensitiveEvents: true, startBlock: hdr, stopBlock: hdr}
+		var out []iter
+		e.walkFn(fn, nil, 0, func(ev []string, ret *ssa.Return, term string) {
+			if term != "back" {
+				return // left the loop: not an iteration of the merge
+			}
+			out = append(out, iter{ev: strings.Join(ev, ","), di: adv(iPhi), dj: adv(jPhi)})
+		})
+		w.cur = nil
+		return out, e.complete
+	}
+	type want struct{ ev, di, dj string }
+	wantOf := func(br string, diff bool) want {
+		switch br {
+		case "lt":
+			return want{"rem", "inc", "keep"}
+		case "gt":
+			return want{"add", "keep", "inc"}
+		}
+		if diff {
+			return want{"add", "inc", "inc"}
+		}
+		return want{"", "inc", "inc"}
+	}
+	for _, br := range []struct {
+		name string
+		sgn  int
+	}{{"lt", -1}, {"eq", 0}, {"gt", 1}} {
+		advOK, emitOK := true, true
+		n := 0
+		detail := ""
+		for _, diff := range []bool{true, false} {
+			its, complete := oneIteration(br.sgn, diff)
+			if !complete {
+				r.Undecided("U-2", "merge:iteration:"+br.name, "the merge loop body has too many paths to evaluate", fnSite(w, fn))
+				advOK, emitOK = false, false
+				continue
+			}
+			wt := wantOf(br.name, diff)
+			for _, it := range its {
+				n++
+				if it.di != wt.di || it.dj != wt.dj {
+					advOK = false
+					detail = fmt.Sprintf("i: %s, j: %s (want i: %s, j: %s)", it.di, it.dj, wt.di, wt.dj)
+				}
+				if it.ev != wt.ev {
+					emitOK = false
+					detail = fmt.Sprintf("emits [%s] (want [%s]) when powers differ=%v", it.ev, wt.ev, diff)
+				}
+			}
+			if len(its) == 0 {
+				advOK, emitOK = false, false
+				detail = "no path of the loop body returns to the loop head under this ordering"
+			}
+		}
+		what := map[string]string{"lt": "an existing validator missing from the new set is removed (its own key, power 0) and only i advances", "eq": "a validator in both sets is updated iff its total power changed (newer key, newer TotalPower) and both indices advance", "gt": "a validator only in the new set is added (its key, its TotalPower) and only j advances"}[br.name]
+		r.Check(advOK, "U-2", "merge:advance:"+br.name, fmt.Sprintf("%s [%d path(s) of one iteration evaluated]", what, n), fmt.Sprintf("ordering %q advances the wrong index: %s", br.name, detail), fnSite(w, fn))
+		r.Check(emitOK, "U-2", "merge:emit:"+br.name, what, fmt.Sprintf("ordering %q emits the wrong update: %s", br.name, detail), fnSite(w, fn))
+	}
+	// tails: one loop for each list (emission sites outside the merge loop; simple helpers expanded)
 	tRem, tAdd := 0, 0
 	reRem := mustRe(`^types\.UpdateValidator\(p0\[(.+)\]\.PubKey, 0, "secp256k1"\)$`)
 	reAdd := mustRe(`^types\.UpdateValidator\(p1\[(.+)\]\.PubKey, p1\[(.+)\]\.TotalPower, "secp256k1"\)$`)
-	for _, c := range tails {
-		s := w.canonCall(c.Common(), 0)
+	for _, c := range CallsIn(fn) {
+		if hdr.Dominates(c.Block()) && reachesBlock(c.Block(), hdr) {
+			continue
+		}
+		s := w.canonCallI(c.Common())
+		if !strings.HasPrefix(s, "types.UpdateValidator(") {
+			continue
+		}
 		if reRem.MatchString(s) {
 			tRem++
 		} else if m := reAdd.FindStringSubmatch(s); m != nil && m[1] == m[2] {
@@ -1080,13 +1153,9 @@ func u2(w *World, r *Report) {
 	// comparator direction agrees with the merge
 	al := needFn(r, "U-2", w, fref{pkgStake, "AddressOrderDelegatees", "Less"})
 	if al != nil {
-		ok := false
-		for _, b := range al.Blocks {
-			if ret, isR := lastInstr(b).(*ssa.Return); isR {
-				ok = w.Canon(ret.Results[0]) == "(bytes.Compare(recv[p0].Addr, recv[p1].Addr) < 0)"
-			}
-		}
-		r.Check(ok, "U-2", "AddressOrderDelegatees.Less:ascending", "ascending by address: the direction the merge assumes (`existing < newer` means existing comes first)", "AddressOrderDelegatees is not ascending by full address (the merge would emit spurious removals/additions)", fnSite(w, al))
+		t := w.comparatorTable(al)
+		ok, why := t.matchesLexicographic([]string{"#.Addr"}, []int{+1})
+		r.Check(ok && t.Bytes["#.Addr"], "U-2", "AddressOrderDelegatees.Less:ascending", "ascending by address: the direction the merge assumes (`existing < newer` means existing comes first)", "AddressOrderDelegatees is not ascending by full address (the merge would emit spurious removals/additions): "+why, fnSite(w, al))
 	}
 }
 
